@@ -8,6 +8,7 @@ package main
 import (
 	"context"
 	"flag"
+	"fmt"
 	"os"
 	"sync"
 	"time"
@@ -169,8 +170,105 @@ func main() {
 				"deadline_ms": sc.deadlineMs, "interval_ms": interval, "ok": reached >= 0 && reached <= sc.deadlineMs}
 		}(i, sc)
 	}
+	var shut map[string]interface{}
+	wg.Add(1)
+	go func() {
+		defer wg.Done()
+		shut = shutdownDuringSave()
+	}()
 	wg.Wait()
 	for _, r := range results {
 		hutil.JSONLine(w, r)
 	}
+	hutil.JSONLine(w, shut)
+}
+
+// shutdownDuringSave: Shutdown is called while a save of the persist loop (with an older snapshot) is still inside the
+// store. When Shutdown has returned the store must hold exactly what the runner reports (first half of C11).
+func shutdownDuringSave() map[string]interface{} {
+	res := map[string]interface{}{"kind": "shutdown_save", "scenario": "shutdown_during_save", "ok": false}
+	dir, err := os.MkdirTemp("", "persistrun")
+	if err != nil {
+		panic(err)
+	}
+	defer os.RemoveAll(dir)
+	inner, err := store.NewJSONDataStore(dir)
+	if err != nil {
+		panic(err)
+	}
+	rs := &recStore{inner: inner, t0: time.Now(), hold: make(chan struct{}), held: make(chan struct{})}
+	defs := &definition.PipelinesDef{Pipelines: map[string]definition.PipelineDef{
+		"p": {Concurrency: 1000, Tasks: map[string]definition.TaskDef{"a": {Script: []string{"x"}}}, SourcePath: "f"}}}
+	gate := make(chan struct{})
+	ctx, cancel := context.WithCancel(context.Background())
+	defer cancel()
+	r, err := prunner.NewPipelineRunner(ctx, defs, func(j *prunner.PipelineJob) taskctl.Runner {
+		return &test.MockRunner{OnRun: func(t *task.Task) error { <-gate; return nil }}
+	}, rs, test.NewMockOutputStore())
+	if err != nil {
+		panic(err)
+	}
+	for i := 0; i < 3; i++ {
+		if _, err := r.ScheduleAsync("p", prunner.ScheduleOpts{}); err != nil {
+			panic(err)
+		}
+		if i == 0 {
+			select {
+			case <-rs.held: // the loop is inside Save with a snapshot of 1 unfinished job
+			case <-time.After(8 * time.Second):
+				res["what"] = "the persist loop did not save within 8 s"
+				return res
+			}
+		}
+	}
+	close(gate)
+	// all three jobs finish
+	deadline := time.Now().Add(10 * time.Second)
+	for {
+		done := 0
+		r.IterateJobs(func(j *prunner.PipelineJob) {
+			if j.Completed {
+				done++
+			}
+		})
+		if done == 3 {
+			break
+		}
+		if time.Now().After(deadline) {
+			res["what"] = "jobs did not complete"
+			return res
+		}
+		time.Sleep(10 * time.Millisecond)
+	}
+	returned := make(chan error, 1)
+	go func() { returned <- r.Shutdown(context.Background()) }()
+	time.Sleep(250 * time.Millisecond)
+	close(rs.hold) // the old save finishes now
+	select {
+	case <-returned:
+	case <-time.After(10 * time.Second):
+		res["what"] = "Shutdown did not return within 10 s after the save in progress finished"
+		return res
+	}
+	// at the return of Shutdown
+	d, err := inner.Load()
+	stored, completed := 0, 0
+	if err == nil && d != nil {
+		stored = len(d.Jobs)
+		for _, j := range d.Jobs {
+			if j.Completed {
+				completed++
+			}
+		}
+	}
+	res["stored_jobs"], res["stored_completed"] = stored, completed
+	rs.mu.Lock()
+	res["events"] = append([]Event{}, rs.ev...)
+	rs.mu.Unlock()
+	if stored == 3 && completed == 3 {
+		res["ok"] = true
+	} else {
+		res["what"] = fmt.Sprintf("Shutdown returned while the store holds %d jobs (%d completed); the runner reports 3 completed jobs (a save with an older snapshot was in progress when Shutdown was called)", stored, completed)
+	}
+	return res
 }
